@@ -2,6 +2,7 @@
 import r_reset
 import r_share
 import r_map
+import r_codec
 
 NA = {
     "C17": "first-match order of a backtracking trie matcher over runtime rule lists: no structural "
@@ -11,7 +12,54 @@ NA = {
 }
 
 PROPS = {
-    "C06": {
+    "C05": {
+        "rules": [r_codec.run_c05],
+        "explanation": "CODEC: for every hand-written bincode codec reachable from the dictionary "
+                       "image the ordered (wire type, field) sequence of the encoder equals that "
+                       "of the decoder, in the portable and the AVX2 build, and BorrowDecode "
+                       "agrees with Decode; every type in the image has both impls; CONFIG: all "
+                       "bincode entry calls take the one fixed-int little-endian configuration; "
+                       "NOHASH: no hash container in the image (canonical bytes); MAGIC/WRITELEN: "
+                       "the writer emits the constant the reader checks and returns "
+                       "len(magic)+encoded bytes.",
+        "level_text": "Static comparison of writer and reader code (MIR call sequences, wire "
+                      "types, field provenance) in both build configurations. Round-trip "
+                      "equality then follows from the symmetry plus bincode's own correctness, "
+                      "which is trusted.",
+        "level_note": "Trusted: bincode 2.0.1 / bincode_derive (derived impls are symmetric), "
+                      "the wire-type normalisation table in rules/r_codec.py, crawdad's "
+                      "serialize_to_vec/deserialize_from_slice being inverse.",
+        "technique": "sibling cross-check of encoder/decoder MIR (ordered wire-type and field "
+                     "sequences), cfg-twin comparison, type-closure walk",
+    },
+    "C09": {
+        "rules": [r_codec.run_c09],
+        "explanation": "MAGIC: in Dictionary::read_common the decode call is dominated by the "
+                       "equal-branch of a comparison between the read_exact buffer and the magic "
+                       "constant the writer emits; mismatch reaches only Err. ERRPROP: every "
+                       "fallible call on the read path and in every hand-written decoder is "
+                       "consumed by `?` or returned (no swallowed decode/io error). CODEC: the "
+                       "reader consumes exactly what the writer emits; Scorer::decode rejects "
+                       "inconsistent parallel arrays.",
+        "level_text": "Static dominance and error-propagation rules over the read path: a "
+                      "necessary structural condition for rejecting truncated/foreign images, "
+                      "for every stream at once. bincode's and read_exact's behaviour on a short "
+                      "stream is the trusted base.",
+        "level_note": "Trusted: bincode returns an error (never default data) when the input "
+                      "ends early; std::io::Read::read_exact semantics.",
+        "technique": "MIR dominance (guard-before-decode), error-discipline rule over all "
+                     "fallible call sites, encoder/decoder sibling cross-check",
+    },
+    "C15": {
+        "rules": [r_codec.run_c15],
+        "explanation": "CODEC over the model image (ModelData: TrainerConfig, FeatureExtractor, "
+                       "FeatureRewriter, rucrf RawModel fetched from crate metadata): ordered wire "
+                       "types and fields of each hand-written encoder equal those of its decoder; "
+                       "CONFIG as for C05.",
+        "level_text": "Static encoder/decoder symmetry for the model file.",
+        "level_note": "Trusted: bincode/bincode_derive; rucrf's derived impls.",
+        "technique": "sibling cross-check of encoder/decoder MIR",
+    },    "C06": {
         "rules": [r_map.run],
         "explanation": "MAP rules over the MIR of Dictionary::map_connection_ids_from_iter, "
                        "reset_user_lexicon_from_reader and every map_connection_ids method: the "
